@@ -191,19 +191,25 @@ def resolve (B : Builtins) : Chain → Name → Res (Chain × Option Symbol)
           | none => .ok ([st], none)
         else .ok ([st], none)
 
-/-- `DefineLocal` (symbol_table.go:191-212): chain after the call, symbol, `exists` -/
+/-- the part of `DefineLocal` that creates the local symbol -/
+def defineNewLocal (B : Builtins) (st : Tab) (ps : Chain) (name : Name) : Res (Chain × Symbol × Bool) := do
+  let index ← nextIndex (st :: ps)
+  let symbol : Symbol := { name := name, index := index, scope := .local }
+  let st1 := { st with numDefinition := st.numDefinition + 1,
+                       store := mapSet st.store name symbol }
+  let (st2, ps2) ← updateMaxDefs st1 ps (symbol.index + 1)
+  pure (shadowBuiltin B st2 name :: ps2, symbol, false)
+
+/-- `DefineLocal` (symbol_table.go): chain after the call, symbol, `exists`.  A BUILTIN entry in
+    the store is only the cache left by an earlier `Resolve`; it is replaced by the new local. -/
 def defineLocal (B : Builtins) : Chain → Name → Res (Chain × Symbol × Bool)
   | [], _ => nilDeref
   | st :: ps, name =>
     match mapGet st.store name with
-    | some symbol => .ok (st :: ps, symbol, true)
-    | none => do
-      let index ← nextIndex (st :: ps)
-      let symbol : Symbol := { name := name, index := index, scope := .local }
-      let st1 := { st with numDefinition := st.numDefinition + 1,
-                           store := mapSet st.store name symbol }
-      let (st2, ps2) ← updateMaxDefs st1 ps (symbol.index + 1)
-      pure (shadowBuiltin B st2 name :: ps2, symbol, false)
+    | some symbol =>
+      if symbol.scope = .builtin then defineNewLocal B st ps name
+      else .ok (st :: ps, symbol, true)
+    | none => defineNewLocal B st ps name
 
 /-- `defineConstLit` (symbol_table.go:214-230) -/
 def defineConstLit (B : Builtins) : Chain → Name → Res (Chain × Symbol × Bool)
@@ -240,22 +246,23 @@ def defineGlobal (B : Builtins) (qname : String) : Chain → Name → Res (Chain
         let st1 := { st with store := mapSet st.store name s }
         .ok ([shadowBuiltin B st1 name], .sym s)
 
-/-- loop body of `SetParams` (symbol_table.go:142-155) -/
+/-- loop body of `SetParams` (symbol_table.go); `k` = number of parameters defined so far: at a
+    duplicate `numParams` is set back to it -/
 def setParamsLoop (B : Builtins) (qname : Name → String) :
-    List Name → Tab → Chain → Res (Tab × Chain × Option String)
-  | [], st, ps => .ok (st, ps, none)
-  | param :: rest, st, ps =>
+    List Name → Nat → Tab → Chain → Res (Tab × Chain × Option String)
+  | [], _, st, ps => .ok (st, ps, none)
+  | param :: rest, k, st, ps =>
     match mapGet st.store param with
-    | some _ => .ok (st, ps, some (qname param ++ " redeclared in this block"))
+    | some _ => .ok ({ st with numParams := (k : Int) }, ps, some (qname param ++ " redeclared in this block"))
     | none => do
       let index ← nextIndex (st :: ps)
       let symbol : Symbol := { name := param, index := index, scope := .local }
       let st1 := { st with numDefinition := st.numDefinition + 1,
                            store := mapSet st.store param symbol }
       let (st2, ps2) ← updateMaxDefs st1 ps (symbol.index + 1)
-      setParamsLoop B qname rest (shadowBuiltin B st2 param) ps2
+      setParamsLoop B qname rest (k + 1) (shadowBuiltin B st2 param) ps2
 
-/-- `SetParams` (symbol_table.go:128-157): chain and the returned error (if any) -/
+/-- `SetParams` (symbol_table.go): chain and the returned error (if any) -/
 def setParams (B : Builtins) (qname : Name → String) (ch : Chain) (params : List Name) :
     Res (Chain × Option String) :=
   if params.length = 0 then .ok (ch, none)       -- returns before any dereference
@@ -266,7 +273,7 @@ def setParams (B : Builtins) (qname : Name → String) (ch : Chain) (params : Li
     else if st.disableParams then .ok (st :: ps, some "parameters disabled")
     else do
       let st1 := { st with numParams := (params.length : Int) }
-      let (st2, ps2, e) ← setParamsLoop B qname params st1 ps
+      let (st2, ps2, e) ← setParamsLoop B qname params 0 st1 ps
       pure (st2 :: ps2, e)
 
 /-- `EnableParams` (symbol_table.go:117-120) -/
